@@ -47,6 +47,14 @@ CHECKS = {
          "RFC limits and default-reason table in TLA+ (StunAttrs); TLC enumerates setter x preceding content; the driver sweeps arguments on both sides of every limit; a TLA+ trace specification checks err iff ShouldReject, failing setter leaves Raw/Length/Attributes unchanged, Build stops at the first failing setter",
          "Requirement monitor err <=> ShouldReject and atomic failure, evaluated by TLC on every recorded setter call and Build.",
          "Trusted: the limits/table as transcribed from the RFCs; TLC; harness."),
+ "C03": (True, "DESIGN.md §4 C03",
+         "implementation-shaped TLA+ model of Message (struct + Raw + retained storage) model-checked over all building/decoding histories to a depth bound; its transition cover replayed on real Messages; a TLA+ trace specification checks the observed state after every step with the independent RFC parse (R) and against the model's step function (I)",
+         "After every building operation of every enumerated history (17 operations, canonical and non-canonical decoded starts, poison-filled storage) and of seeded random histories (values to 3000 bytes), the observed Raw is well-formed and equals the struct by the reference parse, canonical where the history is canonical, Equal agrees, decode-then-encode yields the canonical bytes; single-step conformance to Message.tla incl. retained bytes.",
+         "Trusted: StunWire, the scope interpretation in DESIGN.md C03, TLC, harness. Histories beyond depth 4 (quick) / 5 (thorough) only by random sampling."),
+ "C08": (True, "DESIGN.md §4 C08",
+         "Message.tla's retained-storage model checked for NoLeak over all histories (TLC); all (previous use, next use) pairs enumerated by TLC and driven on poison-filled real Messages against a fresh twin; a TLA+ trace specification requires reused = twin, content = reference parse of its own bytes, and immunity to caller-side overwrites",
+         "Twin equality and copy semantics judged by TLC for every pair of uses (6 kinds x sizes covering every padding residue and shorter/equal/longer relations) and sampled triples; CloneTo/MarshalBinary/GobEncode copies stay intact when the source changes.",
+         "Trusted: poison patterns make leaks visible; TLC; harness."),
 }
 
 ALL = ["C%02d" % i for i in range(1, 21)]
